@@ -4,7 +4,7 @@ ModuleGraph operations.
 
 ModuleGraph::get_node / get_mut_node / depends_on / deep_depends_on / add_node_if_none / inc_ref / remove / rename_path are under contract in a second Verus unit (units/C21/graph.py).
 No deductive back end reaches the others (Kani does not terminate on hashbrown's probe loops - a 2-node tsort ran 25 min without
-result; Verus rejects `&mut` out of an Option::map closure, recursion inside `any(closure)`, insert + retain in one iter_mut body). The contracts are therefore executable predicates (replay/src/c21.rs) over an abstract view
+result; Verus rejects what ancestors_/children/sorted consist of: sets of references threaded through a recursion, iterator filter chains, collect into a Dict). Their contracts are therefore executable predicates (replay/src/c21.rs) over an abstract view
 (vertex set, edge set) and are checked after EVERY operation of EVERY operation sequence up to a stated length."""
 import json
 import os
